@@ -111,11 +111,29 @@ def check(v, tier):
     a, b = run_seed(0), run_seed(0)
     guard(a[1] == b[1], 'seed shim: same seed gave different canary orders')
     ref = {}
+    bad = {}
     for pos, (i, r) in enumerate(zip(seq, a[2])):
         ref.setdefault(i, fingerprint(r))
+    from .. import realmacro
+    realmacro.conformance(v, binary, inputs, [a[2][seq.index(i)] for i in range(n)])
+    if tier != 'quick':
+        # the real macro inside rustc with the shim preloaded into the compiler: every seed must give the same expansion strings
+        base = None
+        for seed in range(12):
+            env = dict(core.ENV)
+            env['LD_PRELOAD'] = so
+            env['VERIF_HASH_SEED'] = str(seed)
+            out = realmacro.expand_in_rustc(inputs + inputs[::-1], env=env)
+            fw, bw = out[:n], out[n:][::-1]
+            if base is None:
+                base = fw
+            for i in range(n):
+                v.cov['evaluations'] += 2
+                if (fw[i] != base[i] or bw[i] != base[i]) and i not in bad:
+                    bad[i] = (seed, i, ('real-backend', fw[i][:300], bw[i][:300]))
+        v.notes['real_backend_seeds'] = 12
     orders = [set(), set()]
     nonvac = sum(1 for i in range(n) if ref[i][0] == 'ok' and ref[i][1].count('impl') >= 2)
-    bad = {}
     with cf.ThreadPoolExecutor(max_workers=core.JOBS) as ex:
         for seed, canary, res in ex.map(run_seed, seeds):
             for k in range(len(canary_keys)):
